@@ -23,7 +23,7 @@ From Coq Require Import List NArith ZArith Bool String Lia.
 From GmsmVerif Require Import Lib.Outcome Gen.X509Tables X509.CreateModel X509.CreateRun X509.SigAlgTables X509.CreateProofs.
 From GmsmVerif Require Import SM2.SM2Bytes SM2.SM2Spec SM2.DER SM2.SM2Model SM2.SM2SignProofs X509.CreateSM2Model X509.CreateSM2Proofs.
 From GmsmVerif Require EC.SM2Curve.
-From GmsmVerif Require Import X509.DerLayer X509.DerLayerProofs X509.ExtModel X509.ExtProofs.
+From GmsmVerif Require Import X509.DerLayer X509.DerLayerProofs X509.ExtModel X509.ExtProofs X509.CrlModel X509.CrlProofs.
 Import ListNotations.
 Local Open Scope N_scope.
 
@@ -308,6 +308,37 @@ Theorem name_constraints_roundtrip :
     parse_name_constraints critical value = Ok (domains, critical).
 Proof. exact name_constraints_roundtrip_lemma. Qed.
 Print Assumptions name_constraints_roundtrip.
+
+(* the TBSCertList CreateCRL / CreateRevocationList assemble (X509/CrlModel.v): version, algorithm, issuer,
+   thisUpdate, optional nextUpdate, optional revoked entries (serial, time, optional extensions), optional
+   extensions - comes back field by field from the model of ParseDERCRL, for every time codec that round-trips
+   and writes UTCTime / GeneralizedTime (time.Time's, by contract), every serial, every extension whose OID is
+   well formed, with the revoked list omitted or written empty *)
+Theorem crl_tbs_roundtrip :
+  forall (T : Type) (enc_time : T -> N * list N) (dec_time : N * list N -> option T),
+    (forall t, dec_time (enc_time t) = Some t) -> (forall t, is_time_id (fst (enc_time t)) = true) ->
+    forall empty_list_written t,
+      tbs_ok T t -> small (build_tbs T enc_time empty_list_written t) ->
+      parse_tbs T dec_time (build_tbs T enc_time empty_list_written t) = Ok t.
+Proof. exact tbs_roundtrip_lemma. Qed.
+Print Assumptions crl_tbs_roundtrip.
+
+(* the two extensions CreateRevocationList adds come back: the issuer's key identifier and the CRL number *)
+Theorem crl_number_and_aki_roundtrip :
+  forall ski number extra,
+    small (build_aki ski) -> small (tlv ID_INTEGER (encode_integer number)) ->
+    match revocation_list_exts ski number extra with
+    | a :: n :: rest =>
+      x_id a = oid_AKI /\ parse_aki (x_val a) = Ok ski /\
+      x_id n = oid_CRLNumber /\ parse_crl_number (x_val n) = Ok number /\ rest = extra
+    | _ => False
+    end.
+Proof.
+  intros ski number extra H1 H2. cbn [revocation_list_exts x_id x_val].
+  split; [reflexivity|]. split; [exact (aki_roundtrip_lemma ski H1)|]. split; [reflexivity|].
+  split; [exact (crl_number_roundtrip_lemma number H2)|reflexivity].
+Qed.
+Print Assumptions crl_number_and_aki_roundtrip.
 
 Example extension_examples :
   marshalSANs_model [[97; 46; 98]] [] [[0;0;0;0;0;0;0;0;0;0;255;255;10;1;2;3]] = [48; 11; 130; 3; 97; 46; 98; 135; 4; 10; 1; 2; 3]
